@@ -315,10 +315,60 @@ func famSlack(r *rng, big bool) [][]string {
 	return es
 }
 
+// several simple cycles hanging off hubs or chained together, plus a cyclic remainder: the shapes on which a
+// feedback-arc heuristic has to place nodes that become sources and sinks at the same time
+func famPendantCycles(r *rng, big bool) [][]string {
+	k := r.between(2, 5)
+	if big {
+		k = r.between(4, 8)
+	}
+	var es [][]string
+	id := 0
+	hub := -1
+	if r.chance(60) {
+		hub = id
+		id++
+	}
+	prevEntry := -1
+	for c := 0; c < k; c++ {
+		n := r.between(3, 5)
+		first := id
+		for i := 0; i < n; i++ {
+			es = append(es, edge(first+i, first+(i+1)%n))
+		}
+		id += n
+		entry := first + r.intn(n)
+		switch {
+		case hub >= 0 && r.chance(70):
+			if r.chance(80) {
+				es = append(es, edge(entry, hub))
+			} else {
+				es = append(es, edge(hub, entry))
+			}
+		case prevEntry >= 0:
+			es = append(es, edge(prevEntry, entry))
+		}
+		prevEntry = entry
+		if r.chance(20) { // a chord
+			es = append(es, edge(first, first+2))
+		}
+	}
+	for x := r.intn(3); x > 0; x-- {
+		a, b := r.intn(id), r.intn(id)
+		if a != b {
+			es = append(es, edge(a, b))
+		}
+	}
+	if r.chance(70) {
+		shuffleEdges(r, es)
+	}
+	return es
+}
+
 var baseFamilies = []family{
 	{"random", famRandom}, {"dag", famDAG}, {"tree", famTree}, {"path", famPath}, {"twocycles", famTwoCycles},
 	{"hubreverse", famHubReverse}, {"selfloops", famSelfLoops}, {"diamonds", famDiamonds}, {"wide", famWide},
-	{"longedges", famLongEdges}, {"slack", famSlack},
+	{"longedges", famLongEdges}, {"slack", famSlack}, {"pendantcycles", famPendantCycles},
 }
 
 func shuffleEdges(r *rng, es [][]string) {
